@@ -4,8 +4,12 @@ import (
 	"fmt"
 	"sort"
 
+	appsv1 "k8s.io/api/apps/v1"
+	batchv1 "k8s.io/api/batch/v1"
 	corev1 "k8s.io/api/core/v1"
+	netv1beta1 "k8s.io/api/networking/v1beta1"
 	metav1 "k8s.io/apimachinery/pkg/apis/meta/v1"
+	"k8s.io/apimachinery/pkg/runtime"
 )
 
 // Obj is the harness-side description of an API object: exactly what the model's Obj holds.
@@ -19,6 +23,21 @@ type Obj struct {
 	InvKind  string            // event
 	InvNS    string
 	InvName  string
+	// workloads (rc rs deployment ds sts job): selector / template labels; for rc and service the selector map is WLabels / Selector
+	WSel    *LabelSel
+	WLabels map[string]string
+	// ingress: default backend service name and rule path backends
+	Default string
+	Paths   []string
+}
+
+// SrcSx encodes a join source object (service, workload or ingress) for the model.
+func (o Obj) SrcSx() string {
+	labels := o.WLabels
+	if o.Kind == "service" {
+		labels = o.Selector
+	}
+	return L("src", Atom(o.Kind), Atom(o.NS), Atom(o.Name), Atom(o.RV), o.WSel.sx(), Map(labels), Atom(o.Default), Strs(o.Paths))
 }
 
 func (o Obj) Sx() string {
@@ -57,8 +76,118 @@ func (o Obj) Build() metav1.Object {
 		return &corev1.Event{ObjectMeta: o.meta(), InvolvedObject: corev1.ObjectReference{Kind: o.InvKind, Namespace: o.InvNS, Name: o.InvName}}
 	case "secret":
 		return &corev1.Secret{ObjectMeta: o.meta()}
+	case "rc":
+		return &corev1.ReplicationController{ObjectMeta: o.meta(), Spec: corev1.ReplicationControllerSpec{Selector: copyMap(o.WLabels)}}
+	case "rs":
+		return &appsv1.ReplicaSet{ObjectMeta: o.meta(), Spec: appsv1.ReplicaSetSpec{Selector: o.WSel.build(), Template: podTemplate(o.WLabels)}}
+	case "deployment":
+		return &appsv1.Deployment{ObjectMeta: o.meta(), Spec: appsv1.DeploymentSpec{Selector: o.WSel.build(), Template: podTemplate(o.WLabels)}}
+	case "ds":
+		return &appsv1.DaemonSet{ObjectMeta: o.meta(), Spec: appsv1.DaemonSetSpec{Selector: o.WSel.build(), Template: podTemplate(o.WLabels)}}
+	case "sts":
+		return &appsv1.StatefulSet{ObjectMeta: o.meta(), Spec: appsv1.StatefulSetSpec{Selector: o.WSel.build(), Template: podTemplate(o.WLabels)}}
+	case "job":
+		return &batchv1.Job{ObjectMeta: o.meta(), Spec: batchv1.JobSpec{Selector: o.WSel.build(), Template: podTemplate(o.WLabels)}}
+	case "ingress":
+		ing := &netv1beta1.Ingress{ObjectMeta: o.meta()}
+		if o.Default != "" {
+			ing.Spec.Backend = &netv1beta1.IngressBackend{ServiceName: o.Default}
+		}
+		if len(o.Paths) > 0 {
+			rule := netv1beta1.IngressRule{IngressRuleValue: netv1beta1.IngressRuleValue{HTTP: &netv1beta1.HTTPIngressRuleValue{}}}
+			for _, p := range o.Paths {
+				rule.HTTP.Paths = append(rule.HTTP.Paths, netv1beta1.HTTPIngressPath{Backend: netv1beta1.IngressBackend{ServiceName: p}})
+			}
+			ing.Spec.Rules = []netv1beta1.IngressRule{rule}
+		}
+		return ing
 	}
 	panic("kv.Obj.Build: unknown kind " + o.Kind)
+}
+
+func copyMap(m map[string]string) map[string]string {
+	if m == nil {
+		return nil
+	}
+	out := map[string]string{}
+	for k, v := range m {
+		out[k] = v
+	}
+	return out
+}
+
+func podTemplate(labels map[string]string) corev1.PodTemplateSpec {
+	return corev1.PodTemplateSpec{ObjectMeta: metav1.ObjectMeta{Labels: copyMap(labels)}}
+}
+
+// TypedList builds the list object a client of that kind would get.
+func TypedList(kind string, objs []Obj, rv string) runtime.Object {
+	lm := metav1.ListMeta{ResourceVersion: rv}
+	switch kind {
+	case "pod":
+		return PodList(objs, rv)
+	case "service":
+		l := &corev1.ServiceList{ListMeta: lm}
+		for _, o := range objs {
+			l.Items = append(l.Items, *o.Build().(*corev1.Service))
+		}
+		return l
+	case "rc":
+		l := &corev1.ReplicationControllerList{ListMeta: lm}
+		for _, o := range objs {
+			l.Items = append(l.Items, *o.Build().(*corev1.ReplicationController))
+		}
+		return l
+	case "rs":
+		l := &appsv1.ReplicaSetList{ListMeta: lm}
+		for _, o := range objs {
+			l.Items = append(l.Items, *o.Build().(*appsv1.ReplicaSet))
+		}
+		return l
+	case "deployment":
+		l := &appsv1.DeploymentList{ListMeta: lm}
+		for _, o := range objs {
+			l.Items = append(l.Items, *o.Build().(*appsv1.Deployment))
+		}
+		return l
+	case "ds":
+		l := &appsv1.DaemonSetList{ListMeta: lm}
+		for _, o := range objs {
+			l.Items = append(l.Items, *o.Build().(*appsv1.DaemonSet))
+		}
+		return l
+	case "sts":
+		l := &appsv1.StatefulSetList{ListMeta: lm}
+		for _, o := range objs {
+			l.Items = append(l.Items, *o.Build().(*appsv1.StatefulSet))
+		}
+		return l
+	case "job":
+		l := &batchv1.JobList{ListMeta: lm}
+		for _, o := range objs {
+			l.Items = append(l.Items, *o.Build().(*batchv1.Job))
+		}
+		return l
+	case "ingress":
+		l := &netv1beta1.IngressList{ListMeta: lm}
+		for _, o := range objs {
+			l.Items = append(l.Items, *o.Build().(*netv1beta1.Ingress))
+		}
+		return l
+	case "event":
+		l := &corev1.EventList{ListMeta: lm}
+		for _, o := range objs {
+			l.Items = append(l.Items, *o.Build().(*corev1.Event))
+		}
+		return l
+	case "secret":
+		l := &corev1.SecretList{ListMeta: lm}
+		for _, o := range objs {
+			l.Items = append(l.Items, *o.Build().(*corev1.Secret))
+		}
+		return l
+	}
+	panic("TypedList: " + kind)
 }
 
 // Describe reads a real API object back into an Obj (nil object -> Kind "nil").
@@ -82,6 +211,20 @@ func Describe(m metav1.Object) Obj {
 		o.InvKind, o.InvNS, o.InvName = x.InvolvedObject.Kind, x.InvolvedObject.Namespace, x.InvolvedObject.Name
 	case *corev1.Secret:
 		o.Kind = "secret"
+	case *corev1.ReplicationController:
+		o.Kind = "rc"
+	case *appsv1.ReplicaSet:
+		o.Kind = "rs"
+	case *appsv1.Deployment:
+		o.Kind = "deployment"
+	case *appsv1.DaemonSet:
+		o.Kind = "ds"
+	case *appsv1.StatefulSet:
+		o.Kind = "sts"
+	case *batchv1.Job:
+		o.Kind = "job"
+	case *netv1beta1.Ingress:
+		o.Kind = "ingress"
 	default:
 		o.Kind = fmt.Sprintf("%T", m)
 	}
